@@ -6,6 +6,7 @@ require (
 	github.com/DataDog/datadog-agent/pkg/obfuscate v0.39.0
 	github.com/GuanceCloud/grok v1.1.2
 	github.com/antchfx/xmlquery v1.3.12
+	github.com/antchfx/xpath v1.2.1
 	github.com/araddon/dateparse v0.0.0-20201001162425-8aadafed4dc4
 	github.com/influxdata/influxdb1-client v0.0.0-20220302092344-a9ab5670611c
 	github.com/mssola/user_agent v0.5.3
@@ -19,7 +20,6 @@ require (
 require (
 	github.com/DataDog/datadog-go/v5 v5.1.0 // indirect
 	github.com/Microsoft/go-winio v0.5.1 // indirect
-	github.com/antchfx/xpath v1.2.1 // indirect
 	github.com/cespare/xxhash/v2 v2.1.1 // indirect
 	github.com/cpuguy83/go-md2man/v2 v2.0.2 // indirect
 	github.com/davecgh/go-spew v1.1.1 // indirect
